@@ -55,7 +55,8 @@ def step (s : St) (line : String) : St × String :=
     match j.toNat? with
     | some j => ({ s with ops := .applyTo j :: s.ops }, "")
     | none => bad s "apply"
-  | ["op", "build"], none => ({ s with ops := .buildSnapshot :: s.ops }, "")
+  | ["op", "begin"], none => ({ s with ops := .beginSnapshot :: s.ops }, "")
+  | ["op", "finish"], none => ({ s with ops := .finishSnapshot :: s.ops }, "")
   | ["op", "install", o], none =>
     let pos : Option (Option Nat) := if o == "-" then some none else o.toNat?.map some
     match pos with
